@@ -240,12 +240,20 @@ func cause(txns []string, k int) string {
 	return ""
 }
 
+// txn kind -> the goroutine site its contract call runs through (Props/C06.lean goroutine table)
+var concurrentSite = map[string]string{"chalresp": "verifyChallengeTickets", "newalloc": "GetItemsByIDs"}
+
 const tagAddOrOverwriteUser = "3:11:" // event.TypeStats : event.TagAddOrOverwriteUser
 
 func compareAll(txns []string, rs []*result) []*detail {
 	var all []*detail
 	seen := map[string]bool{}
 	add := func(d *detail) {
+		// transactions whose contract code fans out to goroutines: any difference between executions is schedule dependence
+		if site, ok := concurrentSite[d.kind]; ok && (d.what == "status" || d.what == "error-output" || d.what == "state" || d.what == "changes") {
+			d.msg = d.what + ": " + d.msg
+			d.what, d.kind = "schedule-dependent-output", site
+		}
 		k := d.what + ":" + d.kind
 		if !seen[k] {
 			seen[k] = true
@@ -405,6 +413,11 @@ func execCase(ops []string, req *request) string {
 			rs = append(rs, r)
 		}
 	}
+	if os.Getenv("C06_SHOW") != "" {
+		for k, t := range rs[0].Txns {
+			fmt.Fprintf(os.Stderr, "  [%d] %s -> status %d %s\n", k, truncate(req.Txns[k], 60), t.Status, truncate(t.Output+t.Err, 160))
+		}
+	}
 	d := compare(req.Txns, rs)
 	if d == nil && req.Clock != "wall" {
 		// verifier path: the real Block.ComputeState and VerifyOutputHash against execution 0
@@ -459,6 +472,12 @@ func execCase(ops []string, req *request) string {
 				}
 				if d != nil {
 					break
+				}
+			}
+			if d != nil {
+				if site, ok := concurrentSite[d.kind]; ok {
+					d.msg = d.what + ": " + d.msg
+					d.what, d.kind = "schedule-dependent-output", site
 				}
 			}
 			if d == nil {
@@ -627,16 +646,31 @@ func gen(r *rand.Rand, thorough bool, i int) []string {
 				ops = append(ops, "txn next")
 			}
 			ops = append(ops, "txn "+save)
-		case x < 20:
+		case x < 24:
+			letters := "gcbsk"
+			v := ""
+			for j := 0; j < 6; j++ {
+				if r.Intn(2) == 0 {
+					v += "g"
+				} else {
+					v += string(letters[r.Intn(len(letters))])
+				}
+			}
+			if r.Intn(3) == 0 {
+				ops = append(ops, "txn newalloc "+pick(r, "blobber ghost1 ghost2", "ghost2 blobber ghost1 ghost3", "ghost1 ghost2"))
+			} else {
+				ops = append(ops, "txn chalresp "+v)
+			}
+		case x < 30:
 			// storagesc before the fork: staged cost + a value that fails validate at commit, then a good commit
 			ops = append(ops, "txn gov storage owner cost.add_blobber=7777 max_delegates=0", "txn commit")
 			if r.Intn(2) == 0 {
 				ops = append(ops, "txn next")
 			}
 			ops = append(ops, "txn gov storage owner max_delegates=5", "txn commit")
-		case x < 30:
+		case x < 45:
 			ops = append(ops, "txn "+genGov(r))
-		case x < 60:
+		case x < 65:
 			from := people[r.Intn(len(people))]
 			to := people[r.Intn(len(people))]
 			if to == from {
@@ -677,6 +711,13 @@ func fixed() [][]string {
 		// user events (a send touches sender, receiver and the fee receiver)
 		{"init 0 1 fixed 1", "txn send alice bob 5", "txn send bob carol 7", "exec"},
 		{"init 0 0 fixed 1", "txn send alice bob 5", "txn pour carol", "txn gov miner owner max_n=8", "txn gov globals owner server_chain.block.max_block_size=77", "exec"},
+		// goroutine scheduling: challenge_response with differently-bad tickets (one goroutine per ticket; the error of the lowest
+		// index must be reported whatever the completion order), many executions per worker at GOMAXPROCS 1 and 16
+		{"init 0 0 fixed 60", "txn chalresp gcgggb", "exec"},
+		{"init 0 0 fixed 60", "txn chalresp sgbgck", "exec"},
+		{"init 0 0 fixed 20", "txn chalresp cbsk", "txn chalresp gggggg", "exec"},
+		// state.GetItemsByIDs: several absent ids — the "not present" error of the lowest index
+		{"init 0 0 fixed 40", "txn newalloc blobber ghost1 ghost2 ghost3", "txn newalloc ghost3 ghost1 blobber", "exec"},
 		// cache warmth: an update that is applied in place and then fails in validate must not leak into a later save (history block first)
 		{"init 0 0 fixed 1", "txn gov miner owner max_delegates=201", "txn next", "txn gov miner owner cost.add_miner=7777 min_n=0", "txn gov miner owner max_delegates=300", "exec"},
 		{"init 0 0 fixed 1", "txn gov miner owner max_delegates=201", "txn next", "txn gov miner owner cost.add_miner=7777 max_n=2 min_n=3", "txn next", "txn gov miner owner max_delegates=300", "exec"},
